@@ -41,7 +41,26 @@ def plans(world, info, seed, tier):
     pols = ["canonical", "alt", "alt+noise"] if tier == "quick" else ["canonical", "alt", "alt", "alt+noise", "alt+noise", "noise"]
     for pol in pols:
         sim = {"latency": "instant", "reply": pol, "reply_seed": rng.randrange(1 << 30), "faults": []}
+        if pol != "canonical" and rng.random() < 0.3:
+            sim["resolve"] = 1          # solve() a second time on the same object, then read the solution
         specs.append({"world": world, "sim": sim, "monitor": pol == "canonical"})
+    # the options that turn safety information into constraints of the model go through the same constraint machinery
+    import copy as _copy
+    w2 = _copy.deepcopy(world)
+    oo = w2["args"].setdefault("optimization_options", {})
+    if world["class"] in models.DAG_CLASSES:
+        oo["optimize_with_safety_as_subpath_constraints"] = True
+    else:
+        oo.pop("optimize_with_safety_as_subset_constraints", None)
+        oo.pop("optimize_with_max_safe_antichain_as_subset_constraints", None)
+        oo[rng.choice(["optimize_with_safety_as_subset_constraints", "optimize_with_max_safe_antichain_as_subset_constraints"])] = True
+    if world["class"] != "NumPathsOptimization":
+        specs.append({"world": w2, "sim": {"latency": "instant", "reply": rng.choice(["canonical", "alt"]), "reply_seed": rng.randrange(1 << 30), "faults": []},
+                      "monitor": False})
+    w3 = mr.length_variant(world, rng)
+    if w3 is not None:
+        specs.append({"world": w3, "sim": {"latency": "instant", "reply": rng.choice(["canonical", "alt"]), "reply_seed": rng.randrange(1 << 30), "faults": []},
+                      "monitor": False})
     return specs
 
 
@@ -203,7 +222,10 @@ def oracle_base_requirement(world, out, pid=ID):
     if not out["solved"] or world["class"] not in models.COVER_CLASSES or mr._node_mode(world):
         return vs
     args = world["args"]
-    if not (args.get("subpath_constraints") or args.get("subset_constraints")):
+    oo_ = args.get("optimization_options") or {}
+    if not (args.get("subpath_constraints") or args.get("subset_constraints") or any(
+            oo_.get(o_) for o_ in ("optimize_with_safety_as_subpath_constraints", "optimize_with_safety_as_subset_constraints",
+                                   "optimize_with_max_safe_antichain_as_subset_constraints"))):
         return vs
     key, routes = mr.routes_of(world, out["raw_solution"])
     covered = set()
